@@ -144,8 +144,11 @@ Definition header_step (strip : Z) (st : hstate) (line : list N) : res (hstate +
         (* unified *)
         let '(r1, hk1) :=
           if fmt_unknown_or p1 FUnified then
+            (* an empty line after the range of a patch whose file names are known is an empty line of context that has
+               lost its leading space (diff --suppress-blank-empty) *)
             if looks_eqb last LKUnified &&
-               (starts_with line [43%N] || starts_with line [45%N] || starts_with line [32%N]) then
+               ((is_nil line && negb (is_nil (old_path p1)) && negb (is_nil (new_path p1))) ||
+                starts_with line [43%N] || starts_with line [45%N] || starts_with line [32%N]) then
               (Some (inr (mk (set_fmt (set_paths p1 (new_path p1) (old_path p1) (new_time p1) (old_time p1)) FUnified)
                              LKUnknown (h_hunk st) (h_first st))), h_hunk st)
             else let '(ok, hk') := parse_unified_range empty_hunk line in
